@@ -36,6 +36,9 @@ _r_partial_array = re.compile(r"\[\s*\.\.\.\s*\]")
 _r_words = re.compile(r"\w+|\S")
 _parser_cache = None
 _r_int_literal = re.compile(r"-?0?x?[0-9a-f]+[lu]*$", re.IGNORECASE)
+_simple_escapes = {'n': 10, 't': 9, 'r': 13, 'a': 7, 'b': 8, 'f': 12, 'v': 11,
+                   '\\': 92, "'": 39, '"': 34, '?': 63, '0': 0, '1': 1,
+                   '2': 2, '3': 3, '4': 4, '5': 5, '6': 6, '7': 7}
 _r_stdcall1 = re.compile(r"\b(__stdcall|WINAPI)\b")
 _r_stdcall2 = re.compile(r"[(]\s*(__stdcall|WINAPI)\b")
 _r_cdecl = re.compile(r"\b__cdecl\b")
@@ -894,9 +897,11 @@ class Parser:
                         elif s.lower()[0:2] == '0b':
                             return int(s, 2)
                 raise CDefError("invalid constant %r" % (s,))
-            elif s[0] == "'" and s[-1] == "'" and (
-                    len(s) == 3 or (len(s) == 4 and s[1] == "\\")):
-                return ord(s[-2])
+            elif s[0] == "'" and s[-1] == "'" and len(s) == 3 and s[1] != "\\":
+                return ord(s[1])
+            elif (s[0] == "'" and s[-1] == "'" and len(s) == 4
+                      and s[1] == "\\" and s[2] in _simple_escapes):
+                return _simple_escapes[s[2]]
             else:
                 raise CDefError("invalid constant %r" % (s,))
         #
